@@ -288,7 +288,7 @@ func visitInstr(fr *frame, instr ssa.Instruction) continuation {
 		}, shortPos(i, pos))
 
 	case *ssa.MakeChan:
-		fr.env[instr] = cur.sched.newChan(int(concInt(fr.get(instr.Size), "chan size")), zero(instr.Type().Underlying().(*types.Chan).Elem()))
+		fr.env[instr] = cur.sched.newChan(int(concInt(fr.get(instr.Size), "chan size")), zero(instr.Type().Underlying().(*types.Chan).Elem()), shortPos(fr.i, instr.Pos()))
 
 	case *ssa.Alloc:
 		var addr *value
